@@ -6,6 +6,8 @@ use crate::world::{Container, Family, Step};
 pub struct LeafSpec {
     pub script: Vec<Step>,
     pub always: bool,
+    /// streams: report an honest, exact `size_hint` (the default is `(0, None)`)
+    pub hint: bool,
 }
 
 #[derive(Clone, Debug, PartialEq, Eq, Hash)]
@@ -103,7 +105,7 @@ impl CombSpec {
                             Step::Panic => "PANIC".into(),
                         })
                         .collect();
-                    format!("<{}{}>", s.join(" "), if l.always { " always" } else { "" })
+                    format!("<{}{}{}>", s.join(" "), if l.always { " always" } else { "" }, if l.hint { " exact-size_hint" } else { "" })
                 }
                 ChildSpec::Inner(i) => i.show(),
             })
